@@ -330,8 +330,92 @@ def mut_conversions(repo: Repo) -> List[Mutant]:
     return out
 
 
+# ------------------------------------------------------------------ Cornish-Fisher recursion (Lee & Lin 1992, algorithm AS 269)
+CF = "expansions/cornish_fisher.py"
+
+
+def rule_cornish_fisher(repo: Repo) -> List[Ob]:
+    """xi_h(k) = a_k h**(k+1) - sum_{j=1}^{k-1} (j/k) (xi_h(k-j) - xi(k-j)) (xi(j) - a_j h**(j+1)) h,   a_k = kappa_{k+2} / ((k+2)! sigma**(k+2)).
+    Compared as source-level identities over the atoms xi_h[.], xi[.], a[.], h (local names are inlined)."""
+    obs = []
+    cls = repo.cls("CornishFisherExpansion", CF)
+    f = cls.find_method("xi_h")
+    key = f"{CF}::CornishFisherExpansion.xi_h::recursion"
+    if f is None:
+        return [inconclusive(R, key, CF, cls.node.lineno, "CornishFisherExpansion", "xi_h not found")]
+    selfn, k = f.params()[0], f.params()[1]
+    defs = Defs(f.node, selfn)
+
+    def nzl():
+        stack = []
+
+        def cb(name):
+            vals = defs.defs.get(name, [])
+            if name in defs.params or name in stack or len(vals) != 1 or not isinstance(vals[0], ast.expr):
+                return None
+            stack.append(name)
+            try:
+                return nz(vals[0])
+            finally:
+                stack.pop()
+        nz = Normalizer(name_cb=cb, int_exponents=True)
+        return nz
+    loops = [n for n in walk_no_nested(f.node) if isinstance(n, ast.For) and isinstance(n.target, ast.Name)]
+    done = False
+    for loop in loops:
+        j = loop.target.id
+        upd = [n for n in ast.walk(loop) if isinstance(n, ast.AugAssign) and isinstance(n.op, (ast.Add, ast.Sub))]
+        if not upd:
+            continue
+        u = upd[0]
+        # loop-local names (factor_2, factor_3) are defined inside the loop: Defs is flow-insensitive, single definitions are inlined
+        want = _parse(f"Rational({j}, {k}) * ({selfn}.xi_h({k} - {j}) - {selfn}.xi({k} - {j})) * ({selfn}.xi({j}) - {selfn}.a({j}) * {selfn}.h ** ({j} + 1)) * {selfn}.h")
+        try:
+            good = nzl()(u.value).equiv(nzl()(want))
+        except AnalysisError:
+            good = None
+        ra = _range_args(loop.iter)
+        rng = ra is not None and len(ra) == 2 and _equiv(ra[0], _parse("1")) and _equiv(ra[1], _parse(k))
+        done = True
+        if good is None or rng is None:
+            obs.append(inconclusive(R, key, CF, u.lineno, f.qualname, "summand of the Cornish-Fisher recursion not readable"))
+        else:
+            ok = good and rng
+            obs.append(Ob(R, key, CF, u.lineno, f.qualname, ok,
+                          "xi_h(k) subtracts sum_{j=1}^{k-1} (j/k) (xi_h(k-j) - xi(k-j)) (xi(j) - a_j h**(j+1)) h" if ok else
+                          (f"summand `{src(u.value)[:90]}` is not (j/k) (xi_h(k-j) - xi(k-j)) (xi(j) - a_j h**(j+1)) h: the recursion is not symmetric in j <-> k-j, a different weight gives a different expansion from the third correction term on"
+                           if not good else f"range `{src(loop.iter)}` is not j = 1 .. k-1")))
+    if not done:
+        obs.append(inconclusive(R, key, CF, f.node.lineno, f.qualname, "loop of the Cornish-Fisher recursion not recognised"))
+    # a_k
+    a = cls.find_method("a")
+    keya = f"{CF}::CornishFisherExpansion.a::coefficient"
+    if a is not None and len(a.params()) > 1:
+        ka = a.params()[1]
+        rets = [r.value for r in walk_no_nested(a.node) if isinstance(r, ast.Return) and r.value is not None]
+        if len(rets) == 1:
+            sa = a.params()[0]
+            good = _equiv(rets[0], _parse(f"{sa}.cumulants[{ka} + 2] / (factorial({ka} + 2) * sqrt({sa}.cumulants[2]) ** ({ka} + 2))"))
+            if good is None:
+                obs.append(inconclusive(R, keya, CF, a.node.lineno, a.qualname, "a_k not readable"))
+            else:
+                obs.append(Ob(R, keya, CF, a.node.lineno, a.qualname, good, "a_k = kappa_(k+2) / ((k+2)! sigma**(k+2))" if good else f"`{src(rets[0])[:80]}` is not kappa_(k+2) / ((k+2)! sigma**(k+2))"))
+    return obs
+
+
+def mut_cornish_fisher(repo: Repo) -> List[Mutant]:
+    out = []
+    for old, new, key, control in (("Rational(j, k)", "Rational(k - j, k)", "xi_h::recursion", True), ("self.h ** (j + 1)", "self.h ** j", "xi_h::recursion", False),
+                                   ("factorial(k + 2)", "factorial(k + 1)", "a::coefficient", False)):
+        ov = text_mutant(repo, CF, old, new)
+        if ov:
+            out.append(Mutant(f"cf:{new}", ov, "fire", key, control=control))
+    return out
+
+
 RULES = {
     "TAILBOUNDS": Rule(R, rule_tail_bounds, 2, "Markov bounds are E(M**k)/a**k for every requested order; the lower bound is (m1-a)**2/(m2-2am1+a**2)", mut_tail_bounds, soft=True),
     "KINDCONV": Rule(R, rule_kind_converters, 4, "cumulant / central goals use their own conversion, report the entry of the goal's order and request the raw moments up to it", mut_kind_converters, soft=True),
+    "CORNISHFISHER": Rule(R, rule_cornish_fisher, 2, "the Cornish-Fisher recursion xi_h and its coefficients a_k are the published ones (source-level identities)", mut_cornish_fisher, soft=True),
     "CONVERSIONS": Rule(R, rule_conversions, 3, "raw -> cumulant recursion, raw -> central binomial sum and comb(n,k) are the textbook formulas (source-level rational-function identities, loop ranges included)", mut_conversions, soft=True),
 }
